@@ -1,5 +1,6 @@
 import TabulaModel.Util
 import TabulaModel.Model.Markdown
+import TabulaModel.Model.MarkdownDoc
 /-!
 Line protocol of C15 (see harness/c15):
 * `c15.mdtab <w> <rows>`      rows `;`-separated, cells `,`-separated hex → hex of `render w t`
@@ -11,6 +12,33 @@ Line protocol of C15 (see harness/c15):
 * `c15.atx <hex line>`        → `none` | `<level> <hex text>` (`parseAtx`)
 * `c15.list <depth>:<o|u>:<num>:<hex text>` → hex of `listLine`
 * `c15.listparse <hex line>`  → `none` | `<depth> <o|u> <hex text>` (`parseListLine`)
+
+Document level (Model/MarkdownDoc.lean); every field is non-empty, `-` = empty string / empty list:
+* `c15.readmd <hex md>` → `h=<n>:<hex>,… i=<d>:<o|u>:<hex>,… t=<none|rows>/… p=<hex>,…` (`readMd`)
+* opts  = `meta:toc:seps:pages:ids:offset:max:<hex sectionSep>` (flags 0/1)
+* ext   = `q:<hex raw>:<hex quoted>,l:<hex raw>:<hex lower>,…` (results of `%q` and `ToLower`)
+* meta  = `<title>:<author>:<subject>:<kw+kw+…|_>:<creator>` (hex)
+* entry = `md` | `mdo:<exH><exF>` | `rag:<exH><exF>` | `ext:<exH><exF>` (`Markdown`, `MarkdownWithOptions`,
+  `MarkdownWithRAGOptions`, `tabula.Extractor.ToMarkdownWithOptions`); pptx has a third flag (notes)
+* `c15.docxmd <entry> <opts> <ext> <meta> <hdrs;ftrs> <fmt> <nParas> <elems>` → hex; fmt =
+  `<numid>:<level>:<o|u>:<start>,…`; elems `|`-separated: `p=<text>:<h>:<level>:<li>:<numid>:<listlevel>`,
+  `t=<span rows>`
+* `c15.odtmd  <entry> <opts> <ext> <meta> <hdrs;ftrs> <ord> <nParas> <elems>` → hex; ord =
+  `<style>:<level>:<0|1>,…`; paragraphs carry the style name where docx has the numId
+* `c15.htmlmd <entry> <opts> <ext> <hmeta> <elems>` → hex; hmeta = `<title>:<author|~>:<desc|~>:<kw|~>`;
+  elems: `h=<level>:<text>`, `p=<text>`, `l=<text>.<level>.<o|u>,…`, `t=<rows>|~|_`, `c=<text>`, `q=<text>`
+* `c15.htmlhist <ext> <hmeta> <mode>=<elems>#… <calls>` → hex,…; calls `,`-separated: `md`, `mdo:<mode>`,
+  `rag:<mode>:<opts with ; for :>`
+* `c15.pptxmd <entry> <opts> <ext> <meta> <sel> <slides>` → hex; slides `|`-separated
+  `<title>/<notes>/<blocks>/<tables>`, blocks `+`-separated `<isTitle>:<placeholder>:<paras>`, paras
+  `<text>.<level>.<bullet>.<numbered>,…`, tables `+`-separated rows
+* `c15.xlsxmd <entry> <opts> <ext> <meta> <sel> <sheets>` → hex; sheets `|`-separated
+  `<name>/<maxCol>/<rows>`, rows `;`, cells `,` = `<value>.<typeEmpty>.<merged>.<root>`, `_` = row without cells
+* `c15.ragmd <opts> <ext> <chunks>` → hex (`collectionMd`); chunk =
+  `<id>:<text>:<title>:<doctitle>:<hlevel>:<pstart>:<pend>:<words>:<section>:<types +|_>`
+* `c15.ragchunk <opts> <chunk>` → hex (`chunkMd`);  `c15.ragcontent <opts> <chunk>` → hex (`contentMd`)
+* `c15.raglist <o|u> <level>:<text>,…` → hex (`ragListText`)
+* `c15.bounds <sheet>` → `minRow maxRow minCol maxCol` (`findContentBounds`)
 -/
 namespace Tabula.C15H
 open Tabula Tabula.Markdown
@@ -45,7 +73,7 @@ def parseSpanTable (s : String) : Option (List (List SCell)) :=
 
 def encTable (t : List (List Str)) : String := ";".intercalate (t.map hexList)
 
-def handle (op : String) (args : List String) : String :=
+def handleBase (op : String) (args : List String) : String :=
   match op, args with
   | "c15.mdtab", [w, rows] =>
     match writerOf w, parseTable rows with
@@ -98,5 +126,287 @@ def handle (op : String) (args : List String) : String :=
       | none => "none")
     | none => "bad-op"
   | _, _ => "bad-op"
+
+/-! ## document level -/
+open Tabula.MarkdownDoc
+
+def flag (s : String) : Bool := s == "1"
+
+/-- `x1,x2,…` with `-` for the empty list -/
+def listOf {α} (sepr : String) (f : String → Option α) (s : String) : Option (List α) :=
+  if s == "-" then some [] else (s.splitOn sepr).mapM f
+
+def parseOpts (sepr : String) (s : String) : Option MdOpts :=
+  match s.splitOn sepr with
+  | [m, t, sp, pg, ids, off, mx, ss] => do
+    let off ← off.toInt?
+    let mx ← mx.toInt?
+    let ss ← unhexS ss
+    pure { «meta» := flag m, toc := flag t, seps := flag sp, pages := flag pg, ids := flag ids,
+           offset := off, max := mx, sectionSep := ss }
+  | _ => none
+
+/-- the `%q` / `ToLower` results the harness supplies; a string without an entry maps to itself
+(the harness lists every string the writer can reach) -/
+def parseExt (s : String) : Option Ext := do
+  let es ← listOf "," (fun e => match e.splitOn ":" with
+    | [k, a, b] => do pure (k, ← unhexS a, ← unhexS b)
+    | _ => none) s
+  let look (k : String) (x : Str) : Str :=
+    match es.find? fun e => e.1 == k && e.2.1 == x with
+    | some e => e.2.2
+    | none => x
+  pure { quote := look "q", lower := look "l" }
+
+def parseMeta (s : String) : Option Meta :=
+  match s.splitOn ":" with
+  | [t, a, su, kw, cr] => do
+    let kws ← if kw == "_" then some [] else (kw.splitOn "+").mapM unhexS
+    pure { title := ← unhexS t, author := ← unhexS a, subject := ← unhexS su, keywords := kws, creator := ← unhexS cr }
+  | _ => none
+
+def optHex (s : String) : Option (Option Str) := if s == "~" then some none else (unhexS s).map some
+
+def parseHMeta (s : String) : Option HMeta :=
+  match s.splitOn ":" with
+  | [t, a, d, k] => do
+    pure { title := ← unhexS t, author := ← optHex a, description := ← optHex d, keywords := ← optHex k }
+  | _ => none
+
+def parseHF (s : String) : Option (List Str × List Str) :=
+  match s.splitOn ";" with
+  | [h, f] => do pure (← listOf "," unhexS h, ← listOf "," unhexS f)
+  | _ => none
+
+structure Entry where
+  kind : String
+  exH : Bool
+  exF : Bool
+  notes : Bool
+
+def parseEntry (s : String) : Option Entry :=
+  match s.splitOn ":" with
+  | [k] => some ⟨k, false, false, false⟩
+  | [k, fl] =>
+    match fl.toList with
+    | [a, b] => some ⟨k, a == '1', b == '1', false⟩
+    | [a, b, c] => some ⟨k, a == '1', b == '1', c == '1'⟩
+    | _ => none
+  | _ => none
+
+def parseDElem (s : String) : Option DElem :=
+  if s.startsWith "p=" then
+    match (s.drop 2).toString.splitOn ":" with
+    | [t, h, l, li, nid, ll] => do
+      pure (.para { text := ← unhexS t, isHeading := flag h, level := ← l.toInt?, isListItem := flag li,
+                    numID := ← unhexS nid, listLevel := ← ll.toInt? })
+    | _ => none
+  else if s.startsWith "t=" then
+    let body := (s.drop 2).toString
+    if body == "-" then some (.table []) else (parseSpanTable body).map .table
+  else none
+
+def parseOElem (s : String) : Option OElem :=
+  if s.startsWith "p=" then
+    match (s.drop 2).toString.splitOn ":" with
+    | [t, h, l, li, st, ll] => do
+      pure (.para { text := ← unhexS t, isHeading := flag h, level := ← l.toInt?, isListItem := flag li,
+                    styleName := ← unhexS st, listLevel := ← ll.toInt? })
+    | _ => none
+  else if s.startsWith "t=" then
+    let body := (s.drop 2).toString
+    if body == "-" then some (.table []) else (parseSpanTable body).map .table
+  else none
+
+def parseFmt (s : String) : Option (Str → Int → NumFmt) := do
+  let es ← listOf "," (fun e => match e.splitOn ":" with
+    | [n, l, k, st] => do pure (← unhexS n, ← l.toInt?, k == "o", ← st.toInt?)
+    | _ => none) s
+  pure fun n l =>
+    match es.find? fun e => e.1 == n && e.2.1 == l with
+    | some e => ⟨e.2.2.1, e.2.2.2⟩
+    | none => ⟨false, 1⟩
+
+def parseOrd (s : String) : Option (Str → Int → Bool) := do
+  let es ← listOf "," (fun e => match e.splitOn ":" with
+    | [n, l, k] => do pure (← unhexS n, ← l.toInt?, flag k)
+    | _ => none) s
+  pure fun n l =>
+    match es.find? fun e => e.1 == n && e.2.1 == l with
+    | some e => e.2.2
+    | none => false
+
+def parseHItem (s : String) : Option HItem :=
+  match s.splitOn "." with
+  | [t, l, k] => do pure { text := ← unhexS t, level := ← l.toInt?, ordered := k == "o" }
+  | _ => none
+
+/-- `-` = no rows at all; a row without cells is `_` -/
+def parseRows (s : String) : Option (List (List Str)) :=
+  if s == "-" then some [] else
+    (s.splitOn ";").mapM fun row => if row == "_" then some [] else parseRow row
+
+def parseHElem (s : String) : Option HElem :=
+  let body := (s.drop 2).toString
+  if s.startsWith "h=" then
+    match body.splitOn ":" with
+    | [l, t] => do pure (.heading (← l.toInt?) (← unhexS t))
+    | _ => none
+  else if s.startsWith "p=" then (unhexS body).map .para
+  else if s.startsWith "l=" then (listOf "," parseHItem body).map .list
+  else if s.startsWith "t=" then
+    if body == "~" then some (.table none) else (parseRows body).map fun r => .table (some r)
+  else if s.startsWith "c=" then (unhexS body).map .code
+  else if s.startsWith "q=" then (unhexS body).map .quote
+  else none
+
+def parsePPara (s : String) : Option PPara :=
+  match s.splitOn "." with
+  | [t, l, b, n] => do pure { text := ← unhexS t, level := ← l.toInt?, isBullet := flag b, isNumbered := flag n }
+  | _ => none
+
+def parsePBlock (s : String) : Option PBlock :=
+  match s.splitOn ":" with
+  | [it, ph, ps] => do pure { isTitle := flag it, placeholder := ← unhexS ph, paras := ← listOf "," parsePPara ps }
+  | _ => none
+
+def parsePSlide (s : String) : Option PSlide :=
+  match s.splitOn "/" with
+  | [t, n, bs, ts] => do
+    pure { title := ← unhexS t, notes := ← unhexS n, content := ← listOf "+" parsePBlock bs,
+           tables := ← listOf "+" parseRows ts }
+  | _ => none
+
+def parseXCell (s : String) : Option XCell :=
+  match s.splitOn "." with
+  | [v, e, m, r] => do pure { value := ← unhexS v, typeEmpty := flag e, merged := flag m, mergeRoot := flag r }
+  | _ => none
+
+def parseXSheet (s : String) : Option XSheet :=
+  match s.splitOn "/" with
+  | [n, mc, rows] => do
+    let rs ← if rows == "-" then some [] else
+      (rows.splitOn ";").mapM fun row => if row == "_" then some [] else (row.splitOn ",").mapM parseXCell
+    pure { name := ← unhexS n, maxCol := ← mc.toInt?, rows := rs }
+  | _ => none
+
+def parseRChunk (s : String) : Option RChunk :=
+  match s.splitOn ":" with
+  | [id, tx, ti, dt, hl, ps, pe, wc, sec, tys] => do
+    let tys ← if tys == "_" then some [] else (tys.splitOn "+").mapM unhexS
+    pure { id := ← unhexS id, text := ← unhexS tx, sectionTitle := ← unhexS ti, docTitle := ← unhexS dt,
+           headingLevel := ← hl.toInt?, pageStart := ← ps.toInt?, pageEnd := ← pe.toInt?,
+           wordCount := ← wc.toInt?, isSection := flag sec, elementTypes := tys }
+  | _ => none
+
+def parseInts (s : String) : Option (List Int) := listOf "," (·.toInt?) s
+
+def encHeading (h : Nat × Str) : String := s!"{h.1}:{hexS h.2}"
+def encItem (i : Nat × Bool × Str) : String := s!"{i.1}:{if i.2.1 then "o" else "u"}:{hexS i.2.2}"
+def encOptTable : Option (List (List Str)) → String
+  | none => "none"
+  | some rows => "ok=" ++ encTable rows
+
+def joinOr (sepr : String) (xs : List String) : String := if xs.isEmpty then "-" else sepr.intercalate xs
+
+def encMdDoc (d : MdDoc) : String :=
+  s!"h={joinOr "," (d.headings.map encHeading)} i={joinOr "," (d.items.map encItem)} t={joinOr "/" (d.tables.map encOptTable)} p={joinOr "," (d.paras.map hexS)}"
+
+def parseHCall (s : String) : Option HCall :=
+  match s.splitOn ":" with
+  | ["md"] => some .markdown
+  | ["mdo", m] => m.toInt?.map .withOptions
+  | ["rag", m, o] => do pure (.rag (← m.toInt?) (← parseOpts ";" o))
+  | _ => none
+
+def parseModes (s : String) : Option (List (Int × List HElem)) :=
+  (s.splitOn "#").mapM fun e =>
+    match e.splitOn "=" with
+    | m :: rest => do
+      let m ← m.toInt?
+      let els ← listOf "|" parseHElem ("=".intercalate rest)
+      pure (m, els)
+    | _ => none
+
+def orBad (r : Option String) : String := r.getD "bad-op"
+
+def handleDoc (op : String) (args : List String) : Option String :=
+  match op, args with
+  | "c15.readmd", [md] => do
+    let d ← unhexS md
+    pure (encMdDoc (readMd d))
+  | "c15.docxmd", [e, o, x, m, hf, f, n, els] => do
+    let e ← parseEntry e; let o ← parseOpts ":" o; let x ← parseExt x; let m ← parseMeta m
+    let hf ← parseHF hf; let f ← parseFmt f; let n ← n.toNat?; let els ← listOf "|" parseDElem els
+    match e.kind with
+    | "md" => pure (hexS (docxMarkdown f hf.1 hf.2 n els))
+    | "mdo" => pure (hexS (docxMarkdownWithOptions f hf.1 hf.2 e.exH e.exF n els))
+    | "rag" => pure (hexS (docxMarkdownRag x f hf.1 hf.2 e.exH e.exF o m n els))
+    | "ext" => pure (hexS (extractorMarkdown x e.exH e.exF o (.docx f hf.1 hf.2 m n els)))
+    | _ => none
+  | "c15.odtmd", [e, o, x, m, hf, f, n, els] => do
+    let e ← parseEntry e; let o ← parseOpts ":" o; let x ← parseExt x; let m ← parseMeta m
+    let hf ← parseHF hf; let f ← parseOrd f; let n ← n.toNat?; let els ← listOf "|" parseOElem els
+    match e.kind with
+    | "md" => pure (hexS (odtMarkdown f hf.1 hf.2 n els))
+    | "mdo" => pure (hexS (odtMarkdownWithOptions f hf.1 hf.2 e.exH e.exF n els))
+    | "rag" => pure (hexS (odtMarkdownRag x f hf.1 hf.2 e.exH e.exF o m n els))
+    | "ext" => pure (hexS (extractorMarkdown x e.exH e.exF o (.odt f hf.1 hf.2 m n els)))
+    | _ => none
+  | "c15.htmlmd", [e, o, x, m, els] => do
+    let e ← parseEntry e; let o ← parseOpts ":" o; let x ← parseExt x; let m ← parseHMeta m
+    let els ← listOf "|" parseHElem els
+    match e.kind with
+    | "mdo" => pure (hexS (htmlMarkdownWithOptions els))
+    | "rag" => pure (hexS (htmlMarkdownRag x o m els))
+    | "ext" => pure (hexS (extractorMarkdown x e.exH e.exF o (.html m els)))
+    | _ => none
+  | "c15.htmlhist", [x, m, modes, calls] => do
+    let x ← parseExt x; let m ← parseHMeta m; let modes ← parseModes modes
+    let calls ← listOf "," parseHCall calls
+    let extract (k : Int) : List HElem := ((modes.find? fun e => e.1 == k).map (·.2)).getD []
+    pure (joinOr "," ((hRun x m extract { elements := extract 0 } calls).map hexS))
+  | "c15.pptxmd", [e, o, x, m, sel, slides] => do
+    let e ← parseEntry e; let o ← parseOpts ":" o; let x ← parseExt x; let m ← parseMeta m
+    let sel ← parseInts sel; let slides ← listOf "|" parsePSlide slides
+    match e.kind with
+    | "mdo" => pure (hexS (pptxMarkdownWithOptions e.exH e.exF e.notes sel slides))
+    | "rag" => pure (hexS (pptxMarkdownRag x e.exH e.exF e.notes sel o m slides))
+    | "ext" => pure (hexS (extractorMarkdown x e.exH e.exF o (.pptx m slides)))
+    | _ => none
+  | "c15.xlsxmd", [e, o, x, m, sel, sheets] => do
+    let e ← parseEntry e; let o ← parseOpts ":" o; let x ← parseExt x; let m ← parseMeta m
+    let sel ← parseInts sel; let sheets ← listOf "|" parseXSheet sheets
+    match e.kind with
+    | "mdo" => pure (hexS (xlsxMarkdownWithOptions sel sheets))
+    | "rag" => pure (hexS (xlsxMarkdownRag x sel o m sheets))
+    | "ext" => pure (hexS (extractorMarkdown x e.exH e.exF o (.xlsx m sheets)))
+    | _ => none
+  | "c15.bounds", [sheet] => do
+    let s ← parseXSheet sheet
+    let b := findContentBounds s
+    pure s!"{b.minRow} {b.maxRow} {b.minCol} {b.maxCol}"
+  | "c15.ragmd", [o, x, cs] => do
+    let o ← parseOpts ":" o; let x ← parseExt x; let cs ← listOf "|" parseRChunk cs
+    pure (hexS (extractorMarkdown x false false o (.pdf cs)))
+  | "c15.ragchunk", [o, c] => do
+    let o ← parseOpts ":" o; let c ← parseRChunk c
+    pure (hexS (chunkMd o c))
+  | "c15.ragcontent", [o, c] => do
+    let o ← parseOpts ":" o; let c ← parseRChunk c
+    pure (hexS (contentMd o c))
+  | "c15.raglist", [k, items] => do
+    let its ← listOf "," (fun e => match e.splitOn ":" with
+      | [l, t] => do pure ((← l.toInt?), (← unhexS t))
+      | _ => none) items
+    pure (hexS (ragListText (k == "o") its))
+  | _, _ => none
+
+def isDocOp (op : String) : Bool :=
+  ["c15.readmd", "c15.docxmd", "c15.odtmd", "c15.htmlmd", "c15.htmlhist", "c15.pptxmd", "c15.xlsxmd",
+   "c15.bounds", "c15.ragmd", "c15.ragchunk", "c15.ragcontent", "c15.raglist"].contains op
+
+def handle (op : String) (args : List String) : String :=
+  if isDocOp op then orBad (handleDoc op args) else handleBase op args
 
 end Tabula.C15H
